@@ -306,6 +306,16 @@ Lemma dry_run_commands_no_effect_lemma : forall e ao v pl,
   snd (run_entry (entry_facts e) ao v pl) = [].
 Proof. intros; apply run_entry_dry; [apply all_dry_complete|]; assumption. Qed.
 
+Lemma guards_as_documented_lemma :
+  f_guard (entry_facts EForget) = Some [] /\
+  f_guard (entry_facts EPrune) = Some [] /\
+  f_guard (entry_facts ERepairIndex) = Some [] /\
+  (exists f, f_guard (entry_facts ERepairSnapshots) = Some [(f, true)]) /\
+  (exists f, f_guard (entry_facts ERewrite) = Some [(f, true)] /\
+             f_guard (entry_facts ERewriteTrees) = Some [(f, true)]) /\
+  f_guard (entry_facts EApplyConfig) = Some [(F_set_append_only_is_false, false)].
+Proof. repeat split; try reflexivity; eexists; try split; reflexivity. Qed.
+
 (* ------------------------------------------------------------------ examples (non-vacuity) *)
 Definition ex_hash (d : N) : id := (1000 + d)%N.
 
